@@ -29,5 +29,9 @@ for ncpu, tiers in ((2, {"quick": {}, "thorough": {}}), (3, {"thorough": {"timeo
     uw = dict(LINUX["unwindset"]); uw.update({"hwloc_linux_set_tid_cpubind.0": ncpu + 2, "hwloc_linux_set_tid_cpubind.1": ncpu + 2, "h_linux_roundtrip.0": ncpu + 1})
     HARNESSES.append(dict(LINUX, core=(ncpu <= 3), name="linux_roundtrip_%d" % ncpu, entry="h_linux_roundtrip", defines={"NCPU": ncpu}, unwindset=uw, encoded=["hwloc_linux_set_tid_cpubind", "hwloc_linux_get_tid_cpubind", "hwloc_linux_find_kernel_nr_cpus"], tiers=tiers,
                           bounds="any set of 1..%d CPUs below 128 inside any 128-bit complete cpuset; any previous kernel mask" % ncpu, cost=60))
+HARNESSES.append(dict(src="C10_x86.c", env=["vp_alloc.c", "vp_libc.c"], units=["hwloc/bitmap.c"], name="x86_binding_restored", entry="h_x86_binding_restored", unwind=6, checks="safety", object_bits=10, timeout=900,
+                      encoded=["look_procs (body copied from the working tree)"], gen=[("x86procs.inc", "hwloc/topology-x86.c", ["look_procs"], "__vp")], tiers={"quick": {}, "thorough": {"defines": {"NP": 4}, "unwind": 7}},
+                      stubs=["look_proc / summarize (CPUID decoding): empty stand-ins", "get_cpubind / set_cpubind: recording stubs, every call may fail"], assumptions=["allocation never fails"],
+                      bounds="1..3 (4) processors, any original binding over 8 bits, any subset of failing binding calls, with or without a restrict set: the last binding call restores the original set; strict single-processor bindings in between", cost=20))
 OUTSIDE = ["the live round trip on the running system (bind -> get, last_cpu_location inside the binding, load restores the binding): real syscalls cannot be encoded",
            "the other native hooks (process-wide binding over /proc/<pid>/task, memory binding syscalls, non-Linux ports)", "get_*membind / alloc_membind entry points"]
